@@ -664,7 +664,66 @@ REFUSED_BOTH = {"SameAB": (SameA, SameB, ValueError)}
 '''
 
 
+SELFCONV_SRC = '''
+def _split(s: str) -> List[str]: return s.split(",")
+def _flatten(ll: List[List[int]]) -> List[int]: return [x for l in ll for x in l]
+@dataclass
+class SelfConv:
+    s: str = field(default="", metadata=conversion(serialization=_split))
+    o: Optional[str] = field(default=None, metadata=conversion(serialization=_split))
+    l: List[int] = field(default_factory=list, metadata=conversion(deserialization=_flatten))
+'''
+
+
+def run_self_containing_conversions(st: infra.Stats):
+    """a conversion whose other side contains the converted type itself (str -> List[str], List[List[int]] -> List[int]):
+    nothing recursive, the schema is the one of the other side at every entry point and version"""
+    mod = exec_source(PRELUDE + SELFCONV_SRC)
+    arr_s = {"type": "array", "items": {"type": "string"}}
+    for vname, version in VERSIONS.items():
+        for all_refs in (False, True):
+            base = {"label": "world:SelfConv", "options": [vname, all_refs]}
+            st.case("world", "SelfConv", vname, all_refs)
+            try:
+                ss = json.loads(json.dumps(serialization_schema(mod.SelfConv, version=version, all_refs=all_refs)))
+                ds = json.loads(json.dumps(deserialization_schema(mod.SelfConv, version=version, all_refs=all_refs)))
+                xs = json.loads(json.dumps(definitions_schema(serialization=[mod.SelfConv], version=version, all_refs=all_refs)))
+                xd = json.loads(json.dumps(definitions_schema(deserialization=[mod.SelfConv], version=version, all_refs=all_refs)))
+                # (OpenAPI: the definitions live outside the document)
+                ss.setdefault("$defs", {}).update(xs)
+                ds.setdefault("$defs", {}).update(xd)
+            except Exception as e:
+                st.violation(dict(base, signature={"kind": "generation_exception", "exc": type(e).__name__, "world": "SelfConv"}, what=f"SelfConv: {e!r}"[:300]))
+                continue
+
+            def props(doc):
+                if "properties" in doc:
+                    return doc["properties"]
+                for d in list(doc.get("$defs", {}).values()) + list(doc.get("definitions", {}).values()):
+                    if "properties" in d:
+                        return d["properties"]
+                return {}
+
+            ps, pd = props(ss), props(ds)
+            got_s = {k: ps.get("s", {}).get(k) for k in ("type", "items")}
+            o = ps.get("o", {})
+            o_ok = ("array" in (o.get("type") if isinstance(o.get("type"), list) else [o.get("type")]) and o.get("items") == {"type": "string"}) or any(a.get("type") == "array" and a.get("items") == {"type": "string"} for a in o.get("anyOf", []) + o.get("oneOf", []))
+            got_l = pd.get("l", {})
+            l_ok = got_l.get("type") == "array" and got_l.get("items", {}).get("type") == "array" and got_l["items"].get("items") == {"type": "integer"}
+            if got_s != arr_s or not o_ok or not l_ok:
+                st.violation(dict(base, signature={"kind": "self_containing_conversion", "version": vname}, what=f"SelfConv: serialization s={ps.get('s')} o={o}; deserialization l={got_l}; expected array of strings / nullable array of strings / array of arrays of integers"[:500]))
+    import sys
+
+    sys.modules.pop(mod.__name__, None)
+
+
 def run_worlds(st: infra.Stats):
+    try:
+        run_self_containing_conversions(st)
+    except Exception:
+        import traceback
+
+        st.violation({"signature": {"kind": "harness_error"}, "harness_error": True, "what": "self-containing conversions", "traceback": traceback.format_exc()[-2000:]})
     mod = exec_source(PRELUDE + WORLD_SRC)
     for name, (tp, exp_shared, exp_all, *only_side) in mod.EXPECT.items():
         for fn in (deserialization_schema, serialization_schema):
